@@ -166,6 +166,17 @@ class Opaque:
         return 'Opaque(%s)' % (s.tag,)
 
 
+class PathV:
+    """std::path::Path / PathBuf as a component list: 'ROOT' or a list of IntV bytes (a Normal component, no separator inside)"""
+    __slots__ = ('comps',)
+
+    def __init__(s, comps):
+        s.comps = list(comps)
+
+    def __repr__(s):
+        return 'Path(%d comps)' % len(s.comps)
+
+
 class Poison:
     """result of an rvalue the interpreter cannot evaluate (e.g. pointer-to-integer arithmetic of rustc's inserted alignment checks);
     harmless unless it is USED: any read of it raises Unsupported with the original reason"""
